@@ -49,6 +49,9 @@ NonLeaf(h) ==
        {Dct(<<IntC(1), H(r)>>)} \cup
        {Attr(Dct(<<StrC("a"), H(r)>>), f) : f \in {"a", "b", "zip"}} \cup
        {Sub(Dct(<<StrC("a"), H(r)>>), ky) : ky \in {StrC("a"), StrC("b"), Name("e")}} \cup
+       \* methods of Python's own scalar types, on a literal / a comparison (the type IS known there, nothing func_adl types)
+       {Meth(StrC("s"), "format", <<H(r)>>), Meth(IntC(1), "to_bytes", <<>>), Meth(StrC("s"), "upper", <<>>),
+        Meth(Cmp(">", H(r), IntC(1)), "conjugate", <<>>)} \cup
        \* a key that is not hashable; a call whose function is itself a subscript (e.a[1](x), e.a[int](x))
        {Sub(Dct(<<StrC("a"), H(r)>>), Lst(<<StrC("a")>>))} \cup
        \* (the receiver is an untyped object: a parameter or an attribute of one; for a receiver of KNOWN type without such a
